@@ -299,6 +299,25 @@ pub fn run_c01(o: &Opts) -> Report {
             cx.fail("witness", "known-class witness", format!("[{}] {:?}", fm.name, s), canon_narsese(&v), canon_pr(&r), Some(k));
         }
     }
+    // images whose recorded index lies BEYOND the component list (constructible through the public variants, outside
+    // the property's domain): formatter model vs real formatter only -- the ImageIterator never emits the placeholder
+    // then (model mutation testing: `now == idx` at the end of the list weakened to `now <= idx` survived)
+    for fm in formats() {
+        let g = term_gen_for(&fm, 2, 3);
+        for n in 0..3usize {
+            for extra in [1usize, 3] {
+                let v: Vec<Term> = (0..n).map(|_| g.atom(&mut rng)).collect();
+                for t in [Term::ImageExtension(n + extra, v.clone()), Term::ImageIntension(n + extra, v.clone())] {
+                    let nested = Term::new_product(vec![g.atom(&mut rng), t.clone()]);
+                    for x in [t, nested] {
+                        if cx.fmt_case(&fm, &Narsese::Term(x)).is_some() {
+                            cx.rep.hist.add(format!("{}:format-only:image-index-beyond-length", fm.name));
+                        }
+                    }
+                }
+            }
+        }
+    }
     let cases = std::mem::take(&mut cx.cases);
     finish(o, "C01", rep, cases)
 }
@@ -1164,6 +1183,37 @@ pub fn run_c15(o: &Opts) -> Report {
                     }
                     LN::Term(_) => {}
                 }
+            }
+            // the wrappers and casts of the value, model (Model/Access.v NValue section, Model/Sentence.v casts) vs real trait
+            // methods (model mutation testing: flipped is_term / is_sentence / is_task survived -- these model functions were
+            // used by theorems but compared with the code nowhere)
+            {
+                let it = v.clone().try_into_term().ok().map(Narsese::Term);
+                let is = v.clone().try_into_sentence().ok().map(Narsese::Sentence);
+                let ik = v.clone().try_into_task().ok().map(Narsese::Task);
+                let compat = v.clone().try_into_task_compatible().ok().map(Narsese::Task);
+                let (ok, back) = match TryCastToSentence::try_cast_to_sentence(v.clone()) {
+                    Ok(w) => (true, w),
+                    Err(w) => (false, w),
+                };
+                cx.push(
+                    format!(
+                        "ECast {} ({}, {}, {}) {} {} {} {} ({}, {})",
+                        cnarsese(&v),
+                        cbool(v.is_term()),
+                        cbool(v.is_sentence()),
+                        cbool(v.is_task()),
+                        copt(&it, cnarsese),
+                        copt(&is, cnarsese),
+                        copt(&ik, cnarsese),
+                        copt(&compat, cnarsese),
+                        cbool(ok),
+                        cnarsese(&back)
+                    ),
+                    format!("casts[{}] {}", fm.name, canon_narsese(&v)),
+                );
+                cx.rep.evaluations += 1;
+                cx.rep.hist.add(format!("casts:{}:to_sentence={}", ["term", "sentence", "task"][kind_of(&v)], ok));
             }
             // wrap / unwrap
             let kind = kind_of(&v);
